@@ -1,13 +1,257 @@
-import RtenVerif.Model.Protobuf
+import RtenVerif.Lemmas.ProtobufDecode
 import RtenVerif.Generated.OnnxSchema
 
+/-!
+# C38 — the ONNX protobuf decoder terminates and never panics
+
+All theorems are about the machine-integer model `RtenVerif.Protobuf` of the **fixed** decoder
+(`rten-onnx` commits "fix: validate protobuf field lengths against the input size" and
+"fix: limit nesting depth of embedded protobuf messages") and are generic in the schema `S`
+(the generated ONNX schema is one instance).  The only hypothesis is `d.size < 2^64`
+(an input addressable by `u64` positions).
+
+* T1 `c38_decode_terminates`, `c38_parse_total`, `c38_field_progress`, `c38_consume_within`
+* T2 `c38_overlong_length_is_error`, `c38_accepted_length_fits`, `c38_toplevel_end_is_input_size`
+* T3 `c38_decode_terminates` (no `wrap`), `c38_alloc_bounded`, `c38_depth_limit`
+* `c38_old_*`: `decide`d witnesses that the arithmetic of the code before the fix was wrong.
+-/
 namespace RtenVerif.Protobuf
 open RtenVerif.Generated.OnnxSchema
 
-/-- Old arithmetic witness: with the pre-fix code, skipping a field of length 2^64-11 at position 11
-passes the wrapped bounds check and seeks back to position 0. -/
+/-! ## T1 progress and termination -/
+
+/-- T1 (progress, one field header): a successful `Fields::next` strictly advances the position,
+and the field's sub-reader `(p, fend)` lies inside the enclosing message. -/
+theorem c38_field_progress {d : Bytes} (hsz : d.size < UInt64.size) {pos end_ : UInt64}
+    (hpe : pos.toNat ≤ end_.toNat) (hes : end_.toNat ≤ d.size)
+    {num : UInt64} {fv : FieldValue} {p fend : UInt64}
+    (h : nextField d pos end_ = .field num fv p fend) :
+    pos.toNat < p.toNat ∧ p.toNat ≤ fend.toNat ∧ fend.toNat ≤ end_.toNat :=
+  let r := nextField_field hsz hpe hes h
+  ⟨r.1, r.2.1, r.2.2.1⟩
+
+/-- T1 (progress, field body): whatever a non-message arm does with a field (read, skip, packed
+iteration) leaves the position inside the field, never before its start and never beyond its end;
+failures are real errors. -/
+theorem c38_consume_within {d : Bytes} (hsz : d.size < UInt64.size) {p fend : UInt64}
+    (hpf : p.toNat ≤ fend.toNat) (hfs : fend.toNat ≤ d.size) (fuel : Nat)
+    (hfuel : fend.toNat - p.toNat < fuel) (k : Kind) (fv : FieldValue) :
+    (∀ v p2, consumeField d fuel k fv p fend = .ok (v, p2) → p.toNat ≤ p2.toNat ∧ p2.toNat ≤ fend.toNat) ∧
+    (∀ e, consumeField d fuel k fv p fend = .error e → e ≠ .wrap ∧ e ≠ .fuel) :=
+  consumeField_spec hsz hpf hfs fuel hfuel k fv
+
+/-- T1 + T3 (termination, no wrap): decoding the message region `[pos, end_)` with fuel exceeding its
+length never runs out of fuel and never reaches a wrapping addition — every failure is a real
+`ErrorKind` — and a successfully decoded message ends exactly at `end_` (it never passes the end). -/
+theorem c38_decode_terminates (S : Schema) {d : Bytes} (hsz : d.size < UInt64.size) :
+    ∀ (fuel depth m : Nat) (pos end_ : UInt64) (acc : List (UInt64 × Val)),
+      pos.toNat ≤ end_.toNat → end_.toNat ≤ d.size → end_.toNat - pos.toNat < fuel →
+      (∀ r p, decodeFields S d fuel depth m pos end_ acc = .ok (r, p) → p.toNat = end_.toNat) ∧
+      (∀ e, decodeFields S d fuel depth m pos end_ acc = .error e → e ≠ .wrap ∧ e ≠ .fuel) := by
+  intro fuel
+  induction fuel with
+  | zero => intro depth m pos end_ acc _ _ h; omega
+  | succ fuel ih =>
+    intro depth m pos end_ acc hpe hes hfuel
+    unfold decodeFields
+    split
+    · -- end of message
+      rename_i p hn
+      have := nextField_done hsz hpe hes hn
+      exact ⟨fun r q h => (by cases h; exact this.1), fun e h => (by cases h)⟩
+    · rename_i e hn
+      have := nextField_err hsz hpe hes hn
+      exact ⟨fun r q h => (by cases h), fun e' h => (by cases h; exact this)⟩
+    · rename_i num fv p fend hn
+      have hf := nextField_field hsz hpe hes hn
+      split
+      · -- embedded message
+        rename_i child hk
+        split
+        · rename_i l
+          split
+          · exact ⟨fun r q h => (by cases h), fun e' h => (by cases h; exact real_tooDeep)⟩
+          · have hsub := lrSub_spec hsz (pos := p) (end_ := fend) hf.2.1 (by omega) l
+            split
+            · rename_i e hs
+              exact ⟨fun r q h => (by cases h), fun e' h => (by cases h; exact hsub.err _ hs)⟩
+            · rename_i cend hs
+              have hc := hsub.ok _ hs
+              have ih1 := ih (depth + 1) child p cend [] (by omega) (by omega) (by omega)
+              split
+              · rename_i e hd
+                exact ⟨fun r q h => (by cases h), fun e' h => (by cases h; exact ih1.2 _ hd)⟩
+              · rename_i sub p2 hd
+                have hp2 := ih1.1 _ _ hd
+                exact ih depth m p2 end_ _ (by omega) hes (by omega)
+        · exact ⟨fun r q h => (by cases h), fun e' h => (by cases h; exact real_typeMismatch)⟩
+      · -- any other arm
+        rename_i k hk
+        have hc := consumeField_spec hsz (p := p) (fend := fend) hf.2.1 (by omega) fuel (by omega)
+          (S.lookup m num).kind fv
+        split
+        · rename_i e hd
+          exact ⟨fun r q h => (by cases h), fun e' h => (by cases h; exact hc.2 _ hd)⟩
+        · rename_i v p2 hd
+          have hp2 := hc.1 _ _ hd
+          exact ih depth m p2 end_ _ (by omega) hes (by omega)
+
+/-- `Fields::new` on a fresh reader: the top-level limit is exactly the input size. -/
+theorem c38_toplevel_end_is_input_size {d : Bytes} (hsz : d.size < UInt64.size) :
+    lrNew d 0 (UInt64.ofNat (UInt64.size - 1)) = sizeU d := by
+  have hs := sizeU_toNat hsz
+  have := size_eq
+  apply UInt64.toNat_inj.mp
+  unfold lrNew
+  have hr : (vrRemaining d 0).toNat = d.size := by
+    rw [vrRem_toNat hsz]; rfl
+  have hmax : (UInt64.ofNat (UInt64.size - 1)).toNat = UInt64.size - 1 := by decide
+  have hmin : (minU (UInt64.ofNat (UInt64.size - 1)) (vrRemaining d 0)).toNat = d.size := by
+    unfold minU
+    split
+    · rename_i h
+      rw [UInt64.le_iff_toNat_le, hmax, hr] at h
+      rw [hmax]; omega
+    · exact hr
+  unfold satAdd
+  have h0 : (0 : UInt64).toNat = 0 := rfl
+  rw [if_pos (by rw [hmin, h0]; omega)]
+  rw [toNat_add_of_lt (by rw [hmin, h0]; omega), hmin, h0, hs]
+  omega
+
+/-- T1 (totality of `ModelProto::parse_buf` / `parse_file` / `is_onnx_model`, any schema, any root
+message): with fuel `|d| + 1` the model decoder always finishes, with either a message whose decoding
+consumed exactly the whole input, or a real `ErrorKind`; the pseudo-outcomes "out of fuel"
+(non-termination) and "wrapped addition" are unreachable. -/
+theorem c38_parse_total (S : Schema) (d : Bytes) (root : Nat) (hsz : d.size < UInt64.size) :
+    (∃ r, parse S d root = .ok (r, sizeU d)) ∨
+    (∃ e, parse S d root = .error e ∧ e ≠ .wrap ∧ e ≠ .fuel) := by
+  unfold parse
+  rw [c38_toplevel_end_is_input_size hsz]
+  have hs := sizeU_toNat hsz
+  have h0 : (0 : UInt64).toNat = 0 := rfl
+  have := c38_decode_terminates S hsz (d.size + 1) 0 root 0 (sizeU d) []
+    (by rw [h0]; omega) (by omega) (by rw [h0, hs]; omega)
+  cases hres : decodeFields S d (d.size + 1) 0 root 0 (sizeU d) [] with
+  | ok rp =>
+    obtain ⟨r, p⟩ := rp
+    have hp := this.1 r p hres
+    left
+    exact ⟨r, by rw [UInt64.toNat_inj.mp hp]⟩
+  | error e =>
+    right
+    exact ⟨e, rfl, this.2 e hres⟩
+
+/-! ## T2 over-long length prefixes -/
+
+/-- T2: if the header of a length-delimited field (tag with wire type 2, then the length varint `l`)
+is readable at `pos` and `l` exceeds the bytes remaining in the enclosing message after the prefix,
+`Fields::next` fails with `Eof` — and so does the decoding of the enclosing message, for every
+schema, message type, depth and (positive) fuel. -/
+theorem c38_overlong_length_is_error (S : Schema) {d : Bytes} {pos end_ tag p1 l p2 : UInt64}
+    (htag : lrReadVarint d pos end_ = .ok tag p1) (hwt : tag &&& 7 = 2)
+    (hlen : lrReadVarint d p1 end_ = .ok l p2)
+    (hlong : end_.toNat - p2.toNat < l.toNat) :
+    nextField d pos end_ = .err .eof ∧
+    ∀ fuel depth m acc, decodeFields S d (fuel + 1) depth m pos end_ acc = .error .eof := by
+  have hnext : nextField d pos end_ = .err .eof := by
+    unfold nextField
+    rw [htag]
+    simp only [readValue, hwt, hlen]
+    have hc : lrCheck p2 end_ l = false := by
+      cases hb : lrCheck p2 end_ l with
+      | false => rfl
+      | true => rw [lrCheck_iff] at hb; omega
+    simp [lrSub, hc]
+  refine ⟨hnext, ?_⟩
+  intro fuel depth m acc
+  unfold decodeFields
+  rw [hnext]
+
+/-- T2 (converse direction): every length-delimited field that `Fields::next` hands out fits in its
+enclosing message, hence in the input: `p + l = fend ≤ end_ ≤ |d|`, with no wrap in `p + l`. -/
+theorem c38_accepted_length_fits {d : Bytes} (hsz : d.size < UInt64.size) {pos end_ : UInt64}
+    (hpe : pos.toNat ≤ end_.toNat) (hes : end_.toNat ≤ d.size)
+    {num l p fend : UInt64} (h : nextField d pos end_ = .field num (.len l) p fend) :
+    p.toNat + l.toNat = fend.toNat ∧ fend.toNat ≤ end_.toNat ∧ fend.toNat ≤ d.size := by
+  have r := nextField_field hsz hpe hes h
+  have := r.2.2.2 l rfl
+  omega
+
+/-! ## T3 allocation sizes and nesting depth -/
+
+/-- T3 (allocations): a `string`/`bytes` field of declared length `l` is only read — and its buffer
+only allocated — when `l` bytes are available inside the field's sub-reader, i.e. `l` never exceeds
+the remaining input. -/
+theorem c38_alloc_bounded {d : Bytes} (hsz : d.size < UInt64.size) {p fend : UInt64}
+    (hpf : p.toNat ≤ fend.toNat) (hfs : fend.toNat ≤ d.size) {utf8 : Bool} {l : UInt64}
+    {v : Option Val} {p2 : UInt64} (h : consumeBlob d utf8 p fend l = .ok (v, p2)) :
+    l.toNat ≤ d.size - p.toNat ∧ p2.toNat = p.toNat + l.toNat := by
+  have := consumeBlob_alloc hsz hpf hfs h
+  omega
+
+/-- Nesting (S4, now enforced by the code): at depth `maxDepth = 100` an embedded message is refused,
+so the recursion depth of the decoder is bounded by a constant. -/
+theorem c38_depth_limit (S : Schema) (d : Bytes) {fuel depth m child : Nat} {pos end_ num l p fend : UInt64}
+    {acc : List (UInt64 × Val)} (hn : nextField d pos end_ = .field num (.len l) p fend)
+    (hk : (S.lookup m num).kind = .msg child) (hd : maxDepth ≤ depth) :
+    decodeFields S d (fuel + 1) depth m pos end_ acc = .error .tooDeep := by
+  unfold decodeFields
+  rw [hn]
+  simp only [hk]
+  rw [if_pos hd]
+
+/-! ## Non-vacuity: concrete inputs meeting the hypotheses -/
+
+/-- ModelProto { graph { node {} } } -/
+def exOk : Bytes := #[0x3a, 0x02, 0x0a, 0x00]
+/-- unknown field 15, length 100, two bytes left (accepted before the fix) -/
+def exOverlong : Bytes := #[0x7a, 0x64, 0x01, 0x02]
+
+/-- Outcome class of a decoder run: error kind, or final position (decidable projection; `Val` has no
+`DecidableEq`). -/
+def resClass {α : Type} (r : Except Err (α × UInt64)) : Sum Err UInt64 :=
+  match r with
+  | .ok (_, p) => .inr p
+  | .error e => .inl e
+
+example : exOk.size < UInt64.size := by decide
+example : (nextField exOk 0 4 = .field 7 (.len 2) 2 4) := by decide
+example : resClass (parse schema exOk idModelProto) = .inr 4 := by decide
+-- hypotheses of `c38_overlong_length_is_error` on `7A 64 01 02`:
+example : lrReadVarint exOverlong 0 4 = .ok 0x7a 1 ∧ (0x7a : UInt64) &&& 7 = 2 ∧
+    lrReadVarint exOverlong 1 4 = .ok 100 2 ∧ (4 : UInt64).toNat - (2 : UInt64).toNat < (100 : UInt64).toNat := by
+  decide
+example : resClass (parse schema exOverlong idModelProto) = .inl .eof := by decide
+-- hypotheses of `c38_depth_limit` / `c38_consume_within`:
+example : (schema.lookup idModelProto 7).kind = .msg idGraphProto := by decide
+example : resClass (consumeField exOk 3 .skip (.len 2) 2 4) = .inr 4 := by decide
+
+/-! ## The arithmetic before the fix was wrong (`decide`d witnesses) -/
+
+/-- Old code, input `7A F5 FF … 01 00 00 00 00`: the field's sub-reader end wraps to 0, the wrapped
+bounds check passes, and `seek_relative(len as i64)` moves the cursor from 11 back to 0 — the decoder
+re-reads the same field forever (the observed hang). -/
 theorem c38_old_skip_goes_backwards :
     oldCheck 11 (oldSubEnd 11 (UInt64.ofNat (2^64 - 11))) (UInt64.ofNat (2^64 - 11)) = true ∧
     oldSkipPos 11 (UInt64.ofNat (2^64 - 11)) = some 0 := by decide
+
+/-- Old code, input `7A 64 01 02`: the length (100) is never compared with the input size (4): the
+sub-reader end is 102, the check `2 + 100 ≤ 102` passes and the cursor moves to 102, beyond the input. -/
+theorem c38_old_overlong_accepted :
+    oldCheck 2 (oldSubEnd 2 100) 100 = true ∧ oldSkipPos 2 100 = some 102 := by decide
+
+/-- Old `read_varint`: after ten continuation bytes (`index = 10`) with more input available, one pass
+of the outer loop leaves the state unchanged — an infinite loop on an 11-byte input. -/
+theorem c38_old_varint_stuck :
+    oldVarintOuter (Array.replicate 11 0x80) 10 10 = some (10, 10) := by decide
+
+/-- The fixed model on the same inputs: errors. -/
+theorem c38_fixed_on_old_witnesses :
+    resClass (parse schema
+      (#[0x7a, 0xf5, 0xff, 0xff, 0xff, 0xff, 0xff, 0xff, 0xff, 0xff, 0x01, 0, 0, 0, 0]) idModelProto)
+      = .inl .eof ∧
+    resClass (parse schema (Array.replicate 11 0x80) idModelProto) = .inl .invalidVarint := by
+  constructor <;> decide
 
 end RtenVerif.Protobuf
